@@ -23,7 +23,9 @@ EXPLANATION = (
     "is_true -> 1, is_false -> 0, undetermined -> None, before and after restriction to the state. (D) "
     "find_single_node_LDOIs uses the strict percolation of each single value, skipping constant functions; "
     "find_single_drivers tests target <= LDOI + {the fixed value itself} in that direction and computes the LDOIs from "
-    "the given network when none are supplied."
+    "the given network when none are supplied. (E) percolation_conflicts: the space in which update functions are "
+    "evaluated is the percolation of the given space by the variant the flag selects, the function evaluated is the "
+    "update function of the very variable whose value is compared, and a conflict is a determined value that differs."
 )
 ASSUMPTIONS = [
     "AEON's percolate_subspace is the least fixed point of value propagation",
@@ -36,6 +38,8 @@ def run(ck: Check) -> None:
     b(ck)
     c(ck)
     d(ck)
+    e(ck)
+    ck.floor("E", 2)
     ck.floor("A", 1)
     ck.floor("B", 3)
     ck.floor("C", 1)
@@ -346,3 +350,57 @@ def d(ck: Check) -> None:
                 probs.append("when no table is supplied, the drivers are not searched in LDOIs freshly computed from the given "
                              "network (a table filled for another network may be used)")
     ck.ob("D", fm, f.node, not probs, "; ".join(probs) if probs else "driver iff target <= LDOI + {the fixed value}", key="single drivers")
+
+
+def e(ck: Check) -> None:
+    from .symstr import SymEval
+    fm = ck.prog.fm(SP, "percolation_conflicts")
+    f = fm.f
+    net, sp, flag = f.params()[0], f.params()[1], f.params()[2]
+    rets = [r for r in own_walk(f.node) if isinstance(r, ast.Return) and r.value is not None]
+    if not rets:
+        raise AnalysisError("anchor vanished: result of percolation_conflicts")
+    for case in (True, False):
+        se = SymEval(fm, assume={flag: case})
+        P = f"percolate_space_strict({net},{sp})" if case else f"percolate_space({net},{sp})"
+        probs = []
+        for r in rets:
+            col = se.collection(r.value, fm.cfgn(r))
+            if col is None:
+                probs.append(f"line {r.lineno}: the result `{text(r.value)[:50]}` is not a collection the analyser can follow")
+                continue
+            if not col:
+                probs.append("no conflict is ever recorded")
+            for el, cnd in col:
+                # the variables examined: those of the percolated space (or, without the strict variant, of the given
+                # space, whose values the percolation keeps)
+                srcs = [P] if case else [P, sp]
+                src = next((s_ for s_ in srcs if el == f"elem({s_})"), None)
+                if src is None:
+                    probs.append(f"conflicts are drawn from `{el[:70]}`, not from the variables of the percolated space")
+                    continue
+                FE = f"function_eval({net}.mk_update_function({el}),{P})"
+                vals = [f"idx({src},{el})", f"idx({P},{el})"]
+                none_a = logic.B(f"none:{FE}")
+                ok_ = False
+                ats = logic.atoms(cnd)
+                for v_ in vals:
+                    eq_a = logic.B("eq:" + "|".join(sorted([FE, v_])))
+                    want = logic.And(logic.Not(none_a), logic.Not(eq_a))
+                    extra = [x for x in ats if x not in (none_a[1], eq_a[1])]
+                    # membership of a given variable in the percolated space is implied (given values are kept)
+                    extra = [x for x in extra if not (x[0] == "b" and x[1] in (f"in:{el}|{P}", f"T:{el} in {P}"))]
+                    try:
+                        if not extra and logic.equivalent(cnd, want):
+                            ok_ = True
+                    except logic.TooBig:
+                        pass
+                if not ok_:
+                    ctx_wrong = f"function_eval({net}.mk_update_function({el})," in logic.show(cnd) and FE not in logic.show(cnd)
+                    probs.append((f"update functions are evaluated in another space than {P}: a conflict that shows only after a "
+                                  f"propagation step is missed; " if ctx_wrong else "") +
+                                 f"a variable is reported under `{logic.show(cnd)[:160]}`; expected: its update function, evaluated "
+                                 f"in {P}, is determined and differs from the value the variable has there")
+        ck.ob("E", fm, rets[0], not probs, "; ".join(sorted(set(probs))) if probs else
+              f"conflicts = variables whose update function is determined in {P} and differs from their value",
+              key=f"conflicts ({'strict' if case else 'plain'} percolation)")
